@@ -41,6 +41,14 @@
 // run - for stdout, -o file, -o dir, -w and -d x every input form; stdout / the -o file byte for
 // byte the concatenation of the formatter's outputs in path order, the -d text applied to the
 // input reproduces the formatter's output.
+//
+// Part (vii), imports.go: the import-path family of the linker phase - import statements whose
+// path is missing, absolute, leaves the module with `..` (depth 1-3), is not normalised (`./`,
+// `//`, trailing `/`, inner `..`), names a directory, a file outside the module, an excluded file,
+// a Well-Known Type that does not exist, the file itself, a 2- / 3-cycle, a duplicate, `import
+// public` / `import weak` - planted in the target, a sibling, a file of another module x every
+// command and input form of part (iv) x every --error-format; and generated import paths through
+// the real bufimage.BuildImage / ModuleDeps() against the model's `importFate`.
 package main
 
 import (
@@ -822,10 +830,12 @@ func main() {
 	currentPart = 6
 	sz := sizePrepare(run, rnd.Fork(6_000_000), base+ph.n+wr.n, bufBin, scratch)
 	run.Set("part6_generate_seconds", time.Since(t6).Seconds())
+	currentPart = 7
+	im := importPrepare(run, rnd.Fork(7_000_000), base+ph.n+wr.n+sz.n, bufBin, scratch)
 	currentPart = 2
 	background := make(chan struct{})
 	go func() {
-		parallel(10, append(append(append([]func(){}, sz.procs...), ph.procs...), wr.procs...))
+		parallel(10, append(append(append(append([]func(){}, sz.procs...), ph.procs...), wr.procs...), im.procs...))
 		close(background)
 	}()
 	for _, w := range fixed {
@@ -850,9 +860,15 @@ func main() {
 	wr.eval()
 	// part (vi): the same modes by SIZE of the formatted text
 	sz.eval()
-	idx += ph.n + wr.n + sz.n
-	procRuns += ph.runs + wr.runs + sz.runs
+	// part (vii): the import-path family - (a) the binary, (b) BuildImage / ModuleDeps in the probe
+	t7 := time.Now()
+	im.eval()
+	idx += ph.n + wr.n + sz.n + im.n
+	procRuns += ph.runs + wr.runs + sz.runs + im.runs
 	run.Set("part45_seconds", time.Since(t4).Seconds())
+	currentPart = 7
+	importProbeCases(run, rnd.Fork(7_500_000), &idx, do)
+	run.Set("part7_eval_seconds", time.Since(t7).Seconds())
 	run.Set("process_runs", procRuns)
 	_ = sort.Strings
 }
